@@ -52,7 +52,9 @@ class Workspace:
         self.nshards_used = n
         shards = [[] for _ in range(n)]
         for i, m in enumerate(core):
-            shards[i % n].append(m)
+            # homonym declarations (ids `h...`: same type name, different rules) must share one crate: the macro runs once per crate, so only
+            # there could macro-side state keyed by the type name leak from one declaration into the next
+            shards[0 if m[0].startswith("h") else i % n].append(m)
         if tail:
             nt = max(1, min(4, (len(tail) + 59) // 60))
             tshards = [[] for _ in range(nt)]
